@@ -24,8 +24,9 @@ import (
 // everything after it on that handle is not executed; file descriptors the
 // handle holds are closed; what was written before stays (the operating system
 // survives).  A crashing Write may be half applied (through the real
-// descriptor).  The real engine's PutIfNotExists and DeleteByPrefix are single
-// calls here: points inside them are reached on the mem-filelike model only.
+// descriptor).  The real engine's PutIfNotExists is split into its create and
+// fill halves at the hook point the `verif` build has between them;
+// DeleteByPrefix (os.RemoveAll) is a single operation here.
 type Dir struct {
 	Root string // scratch directory; logical path /lake/x is the file Root/lake/x
 	mu   sync.Mutex
@@ -305,14 +306,55 @@ func (e *Engine) realPut(ctx context.Context, u *storage.URI) (io.WriteCloser, e
 	return &realWriter{e: e, ctx: ctx, u: u, w: w}, nil
 }
 
-func (e *Engine) realPutIfNotExists(ctx context.Context, u *storage.URI, b []byte) error {
-	seq, done, crash, _ := e.begin(ctx, "pine", u, len(b))
-	defer done()
+// pinePending maps the real path of a PutIfNotExists in flight to its state;
+// the file engine's hook point "storage.file.pine-created" (build tag verif:
+// reached after the exclusive create, before the write) looks the operation up
+// here and turns the rest of it into a second counted, gated, crashable
+// operation "pine-fill" — the same two halves the in-memory file model has.
+var (
+	pineMu      sync.Mutex
+	pinePending = map[string]*pineOp{}
+	pineOnce    sync.Once
+)
+
+type pineOp struct {
+	e    *Engine
+	ctx  context.Context
+	u    *storage.URI
+	b    []byte
+	done func()
+	seq  int
+}
+
+type pineCrash struct{}
+
+func (e *Engine) realPutIfNotExists(ctx context.Context, u *storage.URI, b []byte) (err error) {
+	installPineHook()
+	seq, done, crash, _ := e.begin(ctx, "pine-create", u, 0)
 	if crash {
+		done()
 		return ErrCrashed
 	}
-	err := e.unreal(e.real.PutIfNotExists(ctx, e.dir.URI(u), b))
-	e.finish(seq, err)
+	ru := e.dir.URI(u)
+	op := &pineOp{e: e, ctx: ctx, u: u, b: b, done: done, seq: seq}
+	pineMu.Lock()
+	pinePending[ru.Filepath()] = op
+	pineMu.Unlock()
+	defer func() {
+		pineMu.Lock()
+		delete(pinePending, ru.Filepath())
+		pineMu.Unlock()
+		if r := recover(); r != nil {
+			if _, ok := r.(pineCrash); !ok {
+				op.done()
+				panic(r)
+			}
+			err = ErrCrashed
+		}
+		op.done()
+	}()
+	err = e.unreal(e.real.PutIfNotExists(ctx, ru, b))
+	e.finish(op.seq, err)
 	return err
 }
 
